@@ -711,7 +711,18 @@ func c01GenRec(t *rapid.T, allowQuote bool) gbRec {
 		case 5:
 			val = " " + genWord(t, 8) // as in the corpus ("KEGG BRITE:  NC_001422")
 		}
-		r.DBLink = append(r.DBLink, [2]string{fmt.Sprintf("Db%d%s", i, strings.ReplaceAll(genWord(t, 5), ":", "x")), val})
+		name := fmt.Sprintf("Db%d%s", i, strings.ReplaceAll(genWord(t, 5), ":", "x"))
+		if i > 0 && rapid.IntRange(0, 3).Draw(t, "casetwin") == 0 {
+			// a name that differs from an earlier one in letter case only: a different name
+			prev := r.DBLink[rapid.IntRange(0, len(r.DBLink)-1).Draw(t, "twinof")][0]
+			name = rapid.SampledFrom([]string{strings.ToUpper(prev), strings.ToLower(prev), strings.Title(strings.ToLower(prev))}).Draw(t, "twincase")
+			for _, p := range r.DBLink {
+				if p[0] == name {
+					name += "x" // an exact repeat of a name is one entry, not two (outside the writable domain)
+				}
+			}
+		}
+		r.DBLink = append(r.DBLink, [2]string{name, val})
 	}
 	r.Keywords = genItems(t, 6)
 	if rapid.IntRange(0, 3).Draw(t, "hassrc") > 0 {
@@ -890,7 +901,7 @@ func TestC01(t *testing.T) {
 	{
 		eb := enumPart(t, c01Prop, st, "read-boundary-sweep")
 		rich := gbRec{Locus: "RICH", Mol: "DNA", Circ: true, Div: "SYN", Date: [3]int{2020, 2, 29}, Def: "a rich record: with \"quotes\", slashes / and = signs", Acc: "RICH1", Ver: "RICH1.1",
-			DBLink:   [][2]string{{"BioProject", "PRJNA1: x, y: z"}, {"KEGG BRITE", " lead"}},
+			DBLink:   [][2]string{{"BioProject", "PRJNA1: x, y: z"}, {"KEGG BRITE", " lead"}, {"BIOPROJECT", "PRJNA2"}, {"bioproject", "PRJNA3"}},
 			Keywords: []string{"k one", "k;two", "three"}, Species: "synthetic construct", Organism: "synthetic construct", Taxon: []string{"other sequences", "artificial sequences"},
 			Refs:     []gbRef{{Num: 1, Info: "(bases 1 to 130)", Authors: "A,B. and C,D.", Title: "a title that is long enough to be\nwrapped over two lines", Journal: "J. Test 1 (2), 3-4 (2020)"}, {Num: 2, Info: "(sites)", Title: "t"}},
 			Comments: []string{"first comment\nsecond line of it", "another"}, Extra: [][2]string{{"PROJECT", "GenomeProject:12345"}},
